@@ -11,7 +11,7 @@ pub mod tests;
 // ================================================================================================
 
 /// The number of unique transition constraints in the system operations.
-pub const NUM_CONSTRAINTS: usize = 3;
+pub const NUM_CONSTRAINTS: usize = 4;
 
 /// The degrees of constraints in the individual constraints of the system ops.
 pub const CONSTRAINT_DEGREES: [usize; NUM_CONSTRAINTS] = [
@@ -20,6 +20,7 @@ pub const CONSTRAINT_DEGREES: [usize; NUM_CONSTRAINTS] = [
     8, // constraint for ASSERT operation.
     8, // constraint for FMPADD operation.
     8, // constraint for FMPUPDATE operation.
+    8, // constraint for CLK operation.
 ];
 
 // SYSTEM OPERATIONS TRANSITION CONSTRAINTS
@@ -54,6 +55,9 @@ pub fn enforce_constraints<E: FieldElement>(
 
     // enforces fmpupdate operation constraints.
     index += enforce_fmpupdate_constraints(frame, &mut result[index..], op_flag.fmpupdate());
+
+    // enforces clk operation constraints.
+    index += enforce_clk_constraints(frame, &mut result[index..], op_flag.clk());
 
     index
 }
